@@ -762,7 +762,7 @@ def eval_sys_read(klong):
         f.at_eof = True
         return None
     else:
-        i,a = kg_read_array(r, 0, klong._backend, module=klong.current_module())
+        i,a = kg_read_array(r, 0, klong._backend, ignore_newline=True, read_neg=True, module=klong.current_module())
         f.raw.seek(k+i,0)
         return _read_dict_literal(klong, a)
 
@@ -811,7 +811,7 @@ def eval_sys_read_string(klong, x):
         forms.
 
     """
-    _, a = kg_read_array(x, 0, klong._backend, module=klong.current_module(), read_neg=True)
+    _, a = kg_read_array(x, 0, klong._backend, module=klong.current_module(), read_neg=True, ignore_newline=True)
     return _read_dict_literal(klong, a)
 
 
